@@ -91,7 +91,7 @@ At(v, i) == IF i <= Len(v) THEN v[i] ELSE Zero
 
 RECURSIVE VecCmpFrom(_, _, _)
 VecCmpFrom(a, b, i) ==
-    IF i > Max(Len(a), Len(b)) THEN 0
+    IF i > MaxOf(Len(a), Len(b)) THEN 0
     ELSE LET c == CompCmp(At(a, i), At(b, i))
          IN IF c # 0 THEN c ELSE VecCmpFrom(a, b, i + 1)
 
@@ -117,7 +117,7 @@ B2S(b) == IF b THEN "T" ELSE "F"        \* loop results: "T", "F" or "fall"
 
 RECURSIVE CommonLoop(_, _, _, _)
 CommonLoop(l, op, r, i) ==
-    IF i > Min(Len(l.ver), Len(r.ver)) THEN "fall"
+    IF i > MinOf(Len(l.ver), Len(r.ver)) THEN "fall"
     ELSE IF l.ver[i] # r.ver[i] THEN B2S(TestComp(l.ver[i], op, r.ver[i]))
     ELSE CommonLoop(l, op, r, i + 1)
 RECURSIVE PadLeftLoop(_, _, _, _)      \* lhs shorter: 0 against rhs[i]
